@@ -71,12 +71,15 @@ def main():
     ap.add_argument("--jobs", type=int, default=12)
     ap.add_argument("--out", default="/tmp/mutsweep.json")
     ap.add_argument("--limit", type=int, default=0)
+    ap.add_argument("--allprops", action="store_true", help="run every property on every mutant (not only those anchored in the mutated file)")
     ap.add_argument("--from", dest="prev", default="", help="re-run only the survivors of an earlier sweep")
     a = ap.parse_args()
     fp = file_props()
     files = [f for f in (a.files.split(",") if a.files else sorted(fp)) if f]
     files = [f for f in files if not f.endswith("_gen.go") and not f.startswith("cmd/")]
     allprops = sorted({p for f in files for p in fp.get(f, [])})
+    if a.allprops or a.prev:
+        allprops = sorted({p for v in fp.values() for p in v})
     base_raw = run_props(allprops)
     base = {p: {key(o) for o in obs} for p, obs in base_raw.items()}
     subprocess.run([os.path.join(VERIF, "run.sh"), "build"], check=True)
@@ -95,7 +98,7 @@ def main():
     out = []
     n = 0
     with concurrent.futures.ThreadPoolExecutor(a.jobs) as ex:
-        for m, fired, invalid in ex.map(one, [(m, fp.get(m["file"], allprops), base, tmpdir) for m in muts]):
+        for m, fired, invalid in ex.map(one, [(m, allprops if a.allprops else fp.get(m["file"], allprops), base, tmpdir) for m in muts]):
             n += 1
             status = "invalid" if invalid else ("killed" if fired else "survived")
             out.append(dict(m, status=status, fired={p: v[:3] for p, v in fired.items()}))
